@@ -75,6 +75,10 @@ K_SASL = [
        bound='3 symbolic bytes', crate='amqp', timeout=1800),
 ]
 
+COMPOSITE_VARIANTS = dict(name='composite_width_variants', kind='agreement', target='serde_amqp::de::Deserializer~fe2o3_amqp_types-composites', args=['C05.composite-variants'],
+                     claim='every typed protocol item of the sample set (delivery states and outcomes, open / begin / flow / transfer / disposition / detach / end / close, header, properties, source, target, body sections; described-list bodies on both sides of the list8 / list32 boundary, trailing fields elided) decodes to the SAME value from every valid width of its outer list (list8 re-written as list32 and back, list0 as an empty list8 / list32), from a slice and from a stream, and the two values placed right behind it are found where they are (exactly the encoding is consumed)',
+                     bound='about 115 sample values x up to 3 width variants x 2 readers (derive-macro output and the serde visitors are outside the Verus subset; DescribedAccess::consume_list_header / consume_map_header are under contract in unit READERS)')
+
 ASYNC = 'async fn bodies are verified with .await erased (R3): sound for the state reached through the exclusive &mut self borrow, says nothing about interleavings through shared Arc state or cancellation'
 ENGINE = 'that the tokio engine tasks (select! loops, mpsc channels) call these functions once per frame in arrival order is not verified'
 
@@ -89,7 +93,7 @@ PROPS = {
             'DeliveryFut::poll (Pin/poll) and interleaving of dispositions with further sends are not decided',
             'that UnsettledMessage::settle_with_state is actually invoked on the entry removed by LinkRelay::on_incoming_disposition is visible in the extracted text but is not an obligation: a by-value call leaves no ghost trace; what IS proved: the entry removed is the one under the disposition\'s tag, and settle_with_state resolves its own channel with exactly the state given']),
     'C03': dict(
-        probes=[
+        probes=[COMPOSITE_VARIANTS,
             dict(name='rt_value_classes', kind='agreement', target='serde_amqp::{to_vec,from_slice}::<Value>', args=['C03.value-rt'],
                  claim='from_slice(to_vec(v)) == v for untyped values: every leaf class (all primitive types, strings/symbols/binaries on both sides of the 255/256 width boundary, non-ASCII text), every compound wrapper of a leaf (array of 1/2/3/300, list, map as key and as value, described by code and by name) and every wrapper of those (nesting depth 2), outside the two input classes of findings D18 / D19',
                  bound='3011 values: 37 leaves x 9 wrappers x 9 wrappers, fixed sample data per leaf class'),
@@ -107,7 +111,8 @@ PROPS = {
             'compound header writers: the call-site fact count <= byte length (every element occupies at least one byte in this implementation) is assumed; the serde SerializeSeq/Map impls that call them are not under contract',
             'messages: Message::serialize is proved to hand the serializer exactly the sections that are set, in the AMQP order, and the Message visitor (visit_seq, FieldVisitor::visit_u64) to rebuild the same sections from them (lemma_message_round_trip, all 64 presence combinations, body descriptors 0x75-0x77); the encoding of each section value (derive output), the body types (incl. batches of Data/AmqpSequence) and symbolic descriptors (visit_str) are not under contract']),
     'C05': dict(
-        probes=[dict(name='spec_defaults_of_elided_fields', kind='agreement', target='serde_amqp::from_slice~fe2o3_amqp_types-composites', args=['C05.spec-defaults'],
+        probes=[COMPOSITE_VARIANTS,
+                dict(name='spec_defaults_of_elided_fields', kind='agreement', target='serde_amqp::from_slice~fe2o3_amqp_types-composites', args=['C05.spec-defaults'],
                      claim='a composite whose defaulted fields are elided (list0, short list) or sent as null decodes to the defaults of the SPECIFICATION, written out in the probe (header: durable false, priority 4, first-acquirer false, delivery-count 0; open: max-frame-size 4294967295, channel-max 65535; begin: handle-max 4294967295; attach: snd-settle-mode mixed, rcv-settle-mode first, incomplete-unsettled false; flow: drain / echo false; transfer: more / aborted / batchable / resume false; disposition: settled / batchable false; detach: closed false; source / target: durable none, expiry-policy session-end, timeout 0, dynamic false)',
                      bound='12 reference encodings written by hand from the specification, 36 field checks (derive-macro output is outside the Verus subset)')],
         units=['SERHDR', 'SERSTR', 'SERFIX', 'READERS', 'VALUESER'], kani=K_RT + K_DEC, level='proof', title='Valid encodings / every variant accepted (fixed- and variable-width primitives, compound headers)',
@@ -118,7 +123,7 @@ PROPS = {
             'NOT DECIDED: arbitrary nesting of lists/maps/arrays/described values (the element loop of the serde visitor chain), the derive-macro output for the typed protocol items (performatives, SASL bodies, delivery states, messages) -- serde visitor code is outside the Verus subset and too large for CBMC beyond small bounds',
             'compound header writers: the call-site fact count <= byte length (every element occupies at least one byte in this implementation) is assumed; the serde SerializeSeq/Map impls that call them are not under contract']),
     'C20': dict(
-        probes=[dict(name='size_of_described_composites', kind='agreement', target='serde_amqp::{serialized_size,to_vec} on fe2o3_amqp_types composites', args=['C20.size-composites'],
+        probes=[COMPOSITE_VARIANTS, dict(name='size_of_described_composites', kind='agreement', target='serde_amqp::{serialized_size,to_vec} on fe2o3_amqp_types composites', args=['C20.size-composites'],
                      claim='serialized_size(v) == to_vec(v).len() for derive(SerializeComposite) values: empty described lists (Accepted, Released, End, default Header / Properties), delivery states inside a Disposition, and described lists whose body crosses the list8 / list32 boundary (body sizes 220..=270 through Properties.user_id and Rejected.error.description), Data / AmqpValue around the vbin8 / str8 boundary',
                      bound='133 values, fixed sample data'),
                 dict(name='tree_vs_bytes_plain', kind='agreement', target='serde_amqp::{to_value,from_value}~{to_vec,from_slice}', args=['C20.value-tree-plain'],
